@@ -52,6 +52,11 @@ PROPS = {
                 bounds=["closed-world Validators / ValidatorsByConsAddr / LastValidatorPowers: at most 2 (quick) / 3 (thorough) entries in the pre-state", "one EndBlock (or one add/remove/param message) from an arbitrary mid-block state satisfying the index invariant"],
                 outside=["more validators than the slot bound", "CometBFT's rule against emptying the validator set (not named by the property)"],
                 assumptions=COMMON_ASSUME + ["consensus address is an injective function of the public key (idealised hash)"]),
+    "C14": dict(runs=[dict(pkg="./x/opchild,./x/opchild/keeper", overlays=[("./x/opchild", "harness/opchild_abci"), ("./x/opchild/keeper", "harness/opchild")],
+                           harness="^Harness_C14_", pkgname="opchild", native=["rt.go.tmpl", "opchild_keeper.go.tmpl"], native_pkg="./x/opchild/keeper", native_pkgname="keeper",
+                           runner="keeper.VerifRtRun", runner_import='"github.com/initia-labs/OPinit/x/opchild/keeper"')],
+                bounds=["validator stores: at most 2 (quick) / 3 (thorough) entries in the pre-state", "one plan, at an arbitrary height relative to the block height; plan operator and key each new or already stored; executor list of 0..2"],
+                outside=["several plans at one height (the plan map is keyed by height)"], assumptions=COMMON_ASSUME + ["consensus address is an injective function of the public key"]),
     "C17": dict(runs=[dict(pkg="./x/ophost/types", overlay="harness/C17", pkgname="types", harness="^Harness_C17_", native=["rt.go.tmpl", "types_native.go.tmpl"])],
                 bounds=["proof depth 0..2 (quick) / 0..4 (thorough)", "three memory layouts of the proof list", "all 64-bit field values, opaque strings of any length"],
                 outside=["proofs deeper than 4"], assumptions=["sha3 is an uninterpreted function: equality of digests is decided by equality of preimage bytes", "address.Module is an uninterpreted injective function"]),
